@@ -101,6 +101,11 @@ type Exec struct {
 	leadDone map[*Term]bool
 	assumeDefs []map[*Term]bool
 	curDefs    map[*Term]bool
+	smMemo     map[string][]*smEntry
+	puDone     map[*Term]bool
+	regionSeq  int
+	catDirty   bool // some instruction stored into byte memory in place
+	catGoal    bool // evaluating an ensures goal in positive position
 }
 
 type execErr struct{ msg string }
@@ -599,11 +604,13 @@ func (x *Exec) cutLoopAtHeader(fn *ssa.Function, l *Loop, spec *LoopSpec, st *St
 		st.Regs[phi] = x.freshVal(fmt.Sprintf("loop%d.%s", l.Ordinal, phi.Name()), phi.Type())
 	}
 	mods := x.loopMods(l, st)
+	var havockedSlices []SliceVal
 	for obj := range mods.objs {
 		if cur, ok := st.Cells[obj].(SliceVal); ok {
 			// e.g. the slice inside a bytes.Buffer: stays a slice
 			ns := x.freshSlice(fmt.Sprintf("loop%d.obj%d", l.Ordinal, obj.ID), cur.Elem)
 			st.Cells[obj] = ns
+			havockedSlices = append(havockedSlices, ns)
 			continue
 		}
 		st.Cells[obj] = x.freshVal(fmt.Sprintf("loop%d.obj%d", l.Ordinal, obj.ID), obj.T)
@@ -611,8 +618,11 @@ func (x *Exec) cutLoopAtHeader(fn *ssa.Function, l *Loop, spec *LoopSpec, st *St
 	if mods.heap {
 		st.H = o.Fresh(fmt.Sprintf("H.loop%d", l.Ordinal), o.HeapSort())
 		na := o.Fresh(fmt.Sprintf("alloc.loop%d", l.Ordinal), IntSort)
-		x.assume(o.Implies(st.Guard, o.Ge(na, st.Alloc)))
+		x.assume(o.Ge(na, o.Add(st.Alloc, o.Int(1<<20))))
 		st.Alloc = na
+		for _, hs := range havockedSlices {
+			x.assume(o.Lt(hs.Reg, na))
+		}
 	}
 	for g := range mods.ghost {
 		if v, ok := st.Ghost[g]; ok {
